@@ -32,6 +32,7 @@ type c07iPlan struct {
 	NLines     int    `json:"nlines"`
 	WithNth    string `json:"with_nth"` // what is displayed and searched; what is printed stays the record
 	Ansi       int    `json:"ansi"`     // every Ansi-th record carries SGR sequences and --ansi is given
+	NoColor    bool   `json:"no_color"` // --no-color: --ansi still means the sequences are not part of the record
 	End        string `json:"end"`      // enter | esc | alt-e (expect key) | f2 (expect key) | alt-p (print-query) | alt-o (accept-or-print-query) | alt-n (accept-non-empty)
 }
 
@@ -154,6 +155,7 @@ func genC07iPlan(r *zsim.Rng) *c07iPlan {
 	}
 	if r.Chance(1, 6) {
 		p.Ansi = r.Range(1, 3)
+		p.NoColor = r.Chance(1, 2)
 	}
 	if r.Chance(1, 3) {
 		p.Query = string(lineAlphabet[r.Intn(len(lineAlphabet))])
@@ -181,7 +183,7 @@ func genC07iPlan(r *zsim.Rng) *c07iPlan {
 	p.End = []string{"enter", "enter", "esc", "alt-e", "f2", "alt-p", "alt-o", "alt-n", "ctrl-c"}[r.Intn(9)]
 	p.Events = append(p.Events, sysEvent{Kind: "settle"})
 	for i := r.Intn(8); i > 0; i-- {
-		p.Events = append(p.Events, sysEvent{Kind: "keys", Keys: []string{"alt-u", "alt-u", "alt-d", "alt-t", "alt-t"}[r.Intn(5)]}, sysEvent{Kind: "settle"})
+		p.Events = append(p.Events, sysEvent{Kind: "keys", Keys: []string{"alt-u", "alt-u", "alt-d", "alt-t", "alt-t", "alt-t", "alt-z"}[r.Intn(7)]}, sysEvent{Kind: "settle"})
 	}
 	p.Events = append(p.Events, sysEvent{Kind: "keys", Keys: p.End})
 	return p
@@ -197,7 +199,7 @@ func runC07i(c *runCtx) {
 	base := len(sp.Args)
 	defer func() { sp.Args = sp.Args[:base] }()
 	add := func(a ...string) { sp.Args = append(sp.Args, a...) }
-	add("--bind", "alt-u:up", "--bind", "alt-d:down", "--bind", "alt-t:toggle-in", "--bind", "alt-p:print-query",
+	add("--bind", "alt-u:up", "--bind", "alt-d:down", "--bind", "alt-t:toggle-in", "--bind", "alt-p:print-query", "--bind", "alt-z:change-query(zqzq)",
 		"--bind", "alt-o:accept-or-print-query", "--bind", "alt-n:accept-non-empty")
 	if plan.PrintQuery {
 		add("--print-query")
@@ -219,6 +221,9 @@ func runC07i(c *runCtx) {
 	}
 	if plan.Ansi > 0 {
 		add("--ansi")
+		if plan.NoColor {
+			add("--no-color")
+		}
 	}
 	if plan.Select1 {
 		add("--select-1")
@@ -263,6 +268,7 @@ func runC07i(c *runCtx) {
 		m.multi = int(maxMulti)
 	}
 	applied := 0
+	curQuery := plan.Query
 	r.onSettle = func(r *sysRun, busy bool, final bool) {
 		if st := r.state(); st != nil && !busy && !st.Reading && r.settleN > 0 {
 			// drive the cursor/selection model (same as C09's) for the delivered keys
@@ -295,6 +301,15 @@ func runC07i(c *runCtx) {
 					m.apply("down")
 				case "alt-t":
 					m.apply("toggle-in")
+				case "alt-z":
+					// a query nothing matches (selections stay): what is listed changes, what is selected does not
+					curQuery = "zqzq"
+					mc := sp.Match
+					m.list = indicesOf(freshFilter(display(r), curQuery, mc))
+					if m.list == nil {
+						m.list = []int32{}
+					}
+					m.setCy(m.cy)
 				}
 			}
 		}
@@ -357,7 +372,7 @@ func runC07i(c *runCtx) {
 		}
 		header := func(key string) {
 			if plan.PrintQuery {
-				want = append(want, plan.Query)
+				want = append(want, curQuery)
 			}
 			if plan.Expect {
 				want = append(want, key)
@@ -381,14 +396,14 @@ func runC07i(c *runCtx) {
 				wantCode = ExitNoMatch
 			}
 		case "alt-p":
-			want = append(want, plan.Query)
+			want = append(want, curQuery)
 			wantCode = ExitOk
 		case "alt-o":
 			if len(m.sel) > 0 || len(m.list) > 0 {
 				header("")
 				want = append(want, sel()...)
 			} else {
-				want = append(want, plan.Query)
+				want = append(want, curQuery)
 			}
 			wantCode = ExitOk
 		case "alt-n":
